@@ -994,12 +994,20 @@ func genNodes(t *rapid.T, names []string, depth int, label string) []*Node {
 				nd.Actions = append(nd.Actions, a)
 			}
 		}
-		if depth < 2 && rapid.IntRange(0, 1+depth).Draw(t, label+"_kids") == 1+depth {
+		// (up to 5 levels with siblings at every level: path bookkeeping per node must not leak between siblings)
+		if depth < 4 && rapid.IntRange(0, 1+min2(depth, 1)).Draw(t, label+"_kids") == 1+min2(depth, 1) {
 			nd.Children = genNodes(t, childNames, depth+1, label+"c")
 		}
 		out = append(out, nd)
 	}
 	return out
+}
+
+func min2(a, b int) int {
+	if a < b {
+		return a
+	}
+	return b
 }
 
 func boolToInt(b bool) int {
@@ -1022,7 +1030,7 @@ func genKey(t *rapid.T) string {
 // path ends on (nil when the walk left the tree).
 func genWalk(t *rapid.T, roots []*Node) (segs []string, final *Node) {
 	nodes := roots
-	for depth := 0; depth < 4; depth++ {
+	for depth := 0; depth < 6; depth++ {
 		if len(nodes) == 0 || rapid.IntRange(0, 11).Draw(t, "leave") == 11 {
 			segs = append(segs, rapid.SampledFrom([]string{"unknown", "resx", "re", "res", "k", "sub", "Res", "res.x"}).Draw(t, "junkname"))
 			return segs, nil
